@@ -1,7 +1,15 @@
 #!/bin/bash
-# offline setup: make sure hypothesis is importable from /venv; nothing else to build
+# offline setup: hypothesis must be importable from /venv (the repository is installed there
+# in editable mode, so checks import /repo's working tree; nothing to build).  atheris is
+# optional (only the thorough tier of C09 uses it) and goes into /verif/.deps.
 set -e
+cd "$(dirname "$0")"
+export PIP_NO_INDEX=1
 if ! /venv/bin/python -c "import hypothesis" 2>/dev/null; then
-  PIP_NO_INDEX=1 /venv/bin/pip install --no-index --find-links /opt/veriftools/wheels hypothesis
+  /venv/bin/pip install --no-index --find-links /opt/veriftools/wheels hypothesis
+fi
+if ! PYTHONPATH=.deps /venv/bin/python -c "import atheris" 2>/dev/null; then
+  /venv/bin/pip install -q --no-index --find-links /opt/veriftools/wheels --target .deps atheris \
+    || echo "setup: atheris not installable here; the C09 fuzz campaign will be skipped"
 fi
 /venv/bin/python -c "import hypothesis, numpy, scipy, matplotlib, geometry_tools; print('setup ok', hypothesis.__version__, numpy.__version__)"
